@@ -18,6 +18,118 @@ import (
 	"bytes"
 )
 
+// StringForCodec returns the text of an expression for the codecs that ship expressions
+// between nodes as InfluxQL text (ProcessorOptions, QuerySchema, join conditions). The
+// receiving side parses the text again, so the text has to denote the same tree. It
+// equals expr.String() except for two cases in which String() does not:
+//
+//   - an operand that is a binary expression binding weaker than its parent (or equally,
+//     as the right operand: every operator associates to the left) and that is not
+//     wrapped in a ParenExpr is written in parentheses. Such operands come from rewriting
+//     (unary minus becomes -1 * x, the yacc grammar gives AND and OR one precedence level,
+//     the planner builds conditions): "a / (-1 * b)" must not be sent as "a / -1 * b",
+//     "(a OR b) AND c" not as "a OR b AND c". Chains of one boolean connective are left
+//     alone, regrouping them does not change their value;
+//   - a number literal with an integral value keeps a fraction ("2" is written "2.0").
+//     The parser would otherwise build an IntegerLiteral from it (or reject it when it
+//     does not fit int64) and the store would compute "iv / 2.0" as an integer division.
+func StringForCodec(expr Expr) string {
+	var buf bytes.Buffer
+	renderForCodec(&buf, expr)
+	return buf.String()
+}
+
+// FieldsStringForCodec is Fields.String() with every expression written by StringForCodec.
+func FieldsStringForCodec(fields Fields) string {
+	var buf bytes.Buffer
+	for i, f := range fields {
+		if i > 0 {
+			_, _ = buf.WriteString(", ")
+		}
+		renderForCodec(&buf, f.Expr)
+		if f.Alias != "" {
+			_, _ = buf.WriteString(" AS ")
+			_, _ = buf.WriteString(QuoteIdent(f.Alias))
+		}
+	}
+	return buf.String()
+}
+
+func renderForCodec(buf *bytes.Buffer, expr Expr) {
+	switch e := expr.(type) {
+	case *BinaryExpr:
+		renderOperandForCodec(buf, e, e.LHS, false)
+		_, _ = buf.WriteString(" ")
+		_, _ = buf.WriteString(e.Op.String())
+		_, _ = buf.WriteString(" ")
+		renderOperandForCodec(buf, e, e.RHS, true)
+	case *ParenExpr:
+		_, _ = buf.WriteString("(")
+		renderForCodec(buf, e.Expr)
+		_, _ = buf.WriteString(")")
+	case *Call:
+		_, _ = buf.WriteString(e.Name)
+		_, _ = buf.WriteString("(")
+		for i, arg := range e.Args {
+			if i > 0 {
+				_, _ = buf.WriteString(", ")
+			}
+			renderForCodec(buf, arg)
+		}
+		_, _ = buf.WriteString(")")
+	case *CaseWhenExpr:
+		_, _ = buf.WriteString("CASE")
+		for i := range e.Conditions {
+			_, _ = buf.WriteString(" WHEN ")
+			renderForCodec(buf, e.Conditions[i])
+			_, _ = buf.WriteString(" THEN ")
+			renderForCodec(buf, e.Assigners[i])
+		}
+		_, _ = buf.WriteString(" ELSE ")
+		renderForCodec(buf, e.Assigners[len(e.Conditions)])
+		_, _ = buf.WriteString(" END")
+	case *NumberLiteral:
+		begin := buf.Len()
+		_ = e.RenderBytes(buf, nil)
+		if isIntegerText(buf.Bytes()[begin:]) {
+			_, _ = buf.WriteString(".0")
+		}
+	default:
+		_ = expr.RenderBytes(buf, nil)
+	}
+}
+
+func renderOperandForCodec(buf *bytes.Buffer, parent *BinaryExpr, operand Expr, right bool) {
+	needParens := false
+	if b, ok := operand.(*BinaryExpr); ok && b != nil {
+		p, q := parent.Op.Precedence(), b.Op.Precedence()
+		needParens = q < p || (right && q == p && !(b.Op == parent.Op && (b.Op == AND || b.Op == OR)))
+	}
+	if needParens {
+		_, _ = buf.WriteString("(")
+	}
+	renderForCodec(buf, operand)
+	if needParens {
+		_, _ = buf.WriteString(")")
+	}
+}
+
+// isIntegerText reports whether b is an optional minus sign followed by digits only.
+func isIntegerText(b []byte) bool {
+	if len(b) > 0 && b[0] == '-' {
+		b = b[1:]
+	}
+	if len(b) == 0 {
+		return false
+	}
+	for _, c := range b {
+		if c < '0' || c > '9' {
+			return false
+		}
+	}
+	return true
+}
+
 func (f *Field) WriteDigest(buf *bytes.Buffer) {
 	switch item := f.Expr.(type) {
 	case *VarRef:
